@@ -898,7 +898,7 @@ def corpus() -> list[list[tuple]]:
     hs.append([("env", False, False, [], [], []), ("env", False, False, ["cycle"], [], [("g", S("G"))]),
                ("filt", 1, "bang", "bang"), ("filt", 2, "bang", "up"), ("fs", 1, two, []), ("fs", 2, two, []),
                ("r", ("own", 0), [("x", S("a"))], None, None, False), ("r", ("own", 1), [("x", S("a"))], None, None, False),
-               ("filt", 2, "upcase", None), ("glob", 1, "g", S("H")),
+               ("filt", 2, "upcase", None), ("glob", 1, "g", S("H")), ("glob", 2, "g", S("H2")),
                ("r", ("own", 0), [("x", S("a"))], None, None, False), ("r", ("own", 1), [("x", S("a"))], None, None, False),
                ("fs", 1, [("E", "g")], []), ("r", ("own", 2), [], None, None, False), ("fs", 2, [("C", "g", ["a"])], [])])
     # DEFAULT_ENVIRONMENT behind liquid2.parse / liquid2.render
@@ -1060,7 +1060,16 @@ def main(chk: C.Check, build: C.Build) -> None:
                 dist["fault-hit"] = dist.get("fault-hit", 0) + 1
             if is_render_like(o) and o[-1]:
                 dist["async-step"] = dist.get("async-step", 0) + 1
-            # direct oracle
+            # direct oracle 0: a time-dependent value printed by a render is the clock's value now
+            if kind == "text" and not _mentions_dates(o):
+                tick = sum(1 for x in ops[:i] if x[0] == "tick")
+                stale = [m for m in re.findall(r"2001-\d\d-\d\d", s["obs"][1])
+                         if m != (_BASE + _dt.timedelta(days=tick)).strftime("%Y-%m-%d")]
+                if stale:
+                    chk.finding("oracle:stale-clock-value",
+                                f"step {i} at clock tick {tick} printed the date {stale[0]}",
+                                {"history": ops, "step": i, "output": s["obs"][1], "sources": _sources(ops)})
+            # direct oracle 1 and 2
             if not is_render_like(o) and o[0] not in ("fs", "gt"):
                 continue
             n_oracle += 1
@@ -1127,6 +1136,11 @@ def main(chk: C.Check, build: C.Build) -> None:
         "concurrent renders: each render owns its RenderContext; the only shared state is the session state modelled here; "
         "the schedule-level theorem (interleavings) belongs to C03",
     ]
+
+
+def _mentions_dates(o: tuple) -> bool:
+    """Render arguments that themselves contain a date text (never generated)."""
+    return "2001-" in repr(o)
 
 
 def _sources(ops: list[tuple]) -> dict[str, Any]:
